@@ -13,7 +13,7 @@ def grid_ints(w, n, rnd):
     keep = vals[:6] + [m, -m - 1]
     rest = [v for v in vals if v not in keep]
     rnd.shuffle(rest)
-    out = list(dict.fromkeys(keep + rest))[:n]
+    out = list(dict.fromkeys(keep + rest))[:max(n, len(keep))]       # both extremes always
     return out
 
 
@@ -127,6 +127,13 @@ def ops_family(seed, tier, ws):
                 rest = pairs[cap // 4:]
                 rnd.shuffle(rest)
                 pairs = head + rest[:cap - cap // 4]
+            if kinds == 'ii':
+                # the pairs whose sum / difference / product leaves the word, in every tier
+                m = (1 << (8 * w - 1)) - 1
+                forced = ((m, -1), (-m - 1, 1), (m, -m - 1), (-m - 1, m), (-m - 1, -1), (m, m), (-m - 1, -m - 1), (1, -m - 1), (m // 2 + 1, 2))
+                for pr in (forced[:2] if name.startswith('src_') and tier == 'quick' else forced[:4] if tier == 'quick' and w != 2 else forced):
+                    if pr not in pairs:
+                        pairs.append(pr)
             for x, y in pairs:
                 items.append(runner.Item(('ops', name, x, y, w), src, [str(x), str(y)], w=w, s=120,
                                          meta={'family': 'op:' + name, 'classifier': {'op': name}}))
